@@ -81,7 +81,8 @@ CHECKS["C14"] = {
 
 STUB_HANDLE = STUB_SER + STUB_FMT + [
     "serde_json::from_slice -> scripted deserializer: the k-th message is answered by a pre-drawn script (an error "
-    "value of category Io or - built by serde_json's own from_reader on an empty input - Eof; or an object with the "
+    "value of category Io, Eof - built by serde_json's own from_reader on an empty input - or Data - built by "
+    "serde_json's de::Error::custom; or an object with the "
     "drawn members) that drives the real derived Deserialize visitor of Request",
     "serde_json::from_value -> scripted deserializer driving the real Deserialize impl of the argument struct",
     "std::io::BufReader::new -> BufReader::with_capacity(4, _) (same code, 4-byte instead of 8 KiB buffer)",
@@ -125,7 +126,9 @@ BUFREAD_CUTS = [(r"rec:BufReader<&mut dyn std::io::BufRead> as std::io::(Read|Bu
                 (r"rec:impl std::io::(Read|BufRead) for &mut &?m?u?t? ?dyn std::io::BufRead", 1),
                 (r"rec:Buffer::fill_buf::<&mut &mut dyn std::io::BufRead>", 1),
                 (r"rec:default_read_buf_exact::<std::io::BufReader<&mut dyn", 1)]
-HANDLE_LOOPS = ([("=memcmp.0", 12), (r"memchr::memrchr", 8), (r"tagser::key_eq", 12), (r"tagser::pack", 10)]
+HANDLE_LOOPS = ([("=memcmp.0", 12), (r"memchr::memrchr", 8), (r"tagser::key_eq", 12), (r"tagser::pack", 10),
+                 # serde_json::Error::custom looks for " at line " in its message (Data-category error values)
+                 (r"TwoWaySearcher", 12), (r"pattern::StrSearcher", 12)]
                 + VALUE_CUTS + ERROR_CUTS + BUFREAD_CUTS)
 
 
@@ -260,6 +263,9 @@ CHECKS["C16"] = {
                         ("c16_activation_names1", "= a:varlink", ("quick", "thorough")),
                         ("c16_activation_names2", "= a:b", ("thorough",)),
                         ("c16_activation_names5", "= a:b:varlink", ("thorough",)),
+                        ("c16_activation_names6", "= varlinkx:varlink", ("quick", "thorough")),
+                        ("c16_activation_names7", "= a:varlinkx", ("quick", "thorough")),
+                        ("c16_activation_names8", "= xvarlink:b", ("thorough",)),
                         ("c16_activation_fds1_nonames", "absent, LISTEN_FDS one character", ("quick", "thorough")),
                         ("c16_activation_fds1_names1", "= a:varlink, LISTEN_FDS one character", ("thorough",)),
                         ("c16_activation_fds0", "absent, LISTEN_FDS empty", ("thorough",))]
@@ -342,6 +348,15 @@ CHECKS["C12"] = {
                  "peg's own ErrorState::into_parse_error", "std::hash::RandomState::new -> fixed keys",
                  "alloc::fmt::format -> String::new()", "core::slice::memchr::memchr -> naive byte loop"],
           witness="search"),
+        H("c12_error_position_len6", mod="verif_parser::c12", package="varlink_parser", tiers=("thorough",), timeout=(3600, 7200),
+          functions=["<varlink_parser::IDL as TryFrom<&str>>::try_from (error mapping)", "peg::Parse::position_repr for str",
+                     "peg::error::ErrorState::into_parse_error"],
+          symbolic="text of 6 bytes over {'a', LF, CR, ' '}; byte offset 0..=6 at which the parser gives up",
+          bounds="6-byte texts, every offset; unwind 10",
+          stubs=["varlink_parser::varlink_grammar::ParseInterface (peg-generated) -> fails at the drawn offset, error built by "
+                 "peg's own ErrorState::into_parse_error", "std::hash::RandomState::new -> fixed keys",
+                 "alloc::fmt::format -> String::new()", "core::slice::memchr::memchr -> naive byte loop"],
+          witness="search"),
     ],
     "assumptions": [
         "reduced claim: the diagnostic arithmetic (line lookup + column). Totality and termination of the peg grammar on "
@@ -390,6 +405,9 @@ CHECKS["C06"] = {
         handle_h("c06_k1_truncated", 1, "[truncated document: serde_json error category Eof]", ("quick", "thorough")),
         handle_h("c06_k2_first_truncated", 2, "[truncated, dispatched]", ("quick", "thorough")),
         handle_h("c06_k2_second_truncated", 2, "[dispatched, truncated]", ("thorough",)),
+        handle_h("c06_k1_wrong_shape", 1, "[valid JSON of the wrong shape: serde_json error category Data]", ("quick", "thorough")),
+        handle_h("c06_k2_first_wrong_shape", 2, "[wrong shape, dispatched]", ("quick", "thorough")),
+        handle_h("c06_k2_second_wrong_shape", 2, "[dispatched, wrong shape]", ("thorough",)),
         handle_h("c01_k3_ddd_f2", 3, "[dispatched, dispatched, malformed]", ("thorough",)),
     ],
     "assumptions": CHECKS["C01"]["assumptions"] + [
